@@ -421,6 +421,9 @@ func cmdRun(args []string) int {
 }
 
 func printReport(rep *ex.Report) {
+	if rep.UnderApprox > 0 {
+		fmt.Printf("  under-approximated paths (an argument of an unmodelled library call was concretised): %d\n", rep.UnderApprox)
+	}
 	fmt.Printf("harness %s: paths=%d ok=%d pruned=%d candidates=%d inconclusive=%d unsupported=%d outside=%d complete=%v wall=%.1fs\n",
 		rep.Harness, rep.Paths, rep.OK, rep.Pruned, len(rep.Candidates), rep.Inconclusive, rep.Unsupported, rep.Outside, rep.Complete, rep.Wall.Seconds())
 	fmt.Printf("  forks=%d decisions=%d asserts=%d discharged=%d unknowns=%d steps=%d solver{sat=%d unsat=%d unknown=%d err=%d}\n",
